@@ -142,9 +142,10 @@ R.contract(
 # ------------------------------------------------------------------ _search_with_episodes (per tier)
 R.record("EpisodeRef", {"id": "Un[EpId]", "owner": "str", "score": "float", "text": "str"}, pyclass="clematis.engine.types:EpisodeRef")
 # hints: the code reads sim_threshold / archive_quarters / now through .get() and treats a missing key exactly like a
-# None value, so these are modelled as always-present Optional values (halves the shape forks each); recent_days and
-# clusters_top_m have non-None defaults: genuinely optional keys
-R.dictrec("SearchHints", {"recent_days?": "int", "clusters_top_m?": "int", "sim_threshold": "Optional[float]",
+# None value, so these are modelled as always-present Optional values (halves the shape forks each); recent_days has a
+# non-None default (30): a genuinely optional key
+# (clusters_top_m is read only through .get(k, 3): a missing key is the same as the value 3)
+R.dictrec("SearchHints", {"recent_days?": "int", "clusters_top_m": "int", "sim_threshold": "Optional[float]",
                           "archive_quarters": "Optional[List[str]]", "now": "Optional[str]"})
 _REF = ("(%(e)s['id'] == %(r)s.id and %(r)s.owner == %(e)s.get('owner', '') and %(r)s.text == %(e)s.get('text', '') and "
         "'vec_full' in %(e)s and %(r)s.score == cosine(q_vec, %(e)s['vec_full']))")
@@ -167,6 +168,10 @@ _COMMON = [
      "forall2(i, j, 0 <= i and i < j and j < len(result), (0 - result[i].score, result[i].id) <= (0 - result[j].score, result[j].id))"),
     ("inputs-untouched", "seq_eq(episodes, old(episodes)) and seq_eq(self._eps, old(self._eps)) and self._ver == old(self._ver)"),
 ]
+_EXACT_ARM = ["eps = self._filter_recent(", "results = self._rank_by_cosine(eps, q_vec"]
+_ARCHIVE_ARM = ["eps = self._filter_quarters(", "results = self._rank_by_cosine(eps, q_vec"]
+_CLUSTER_ARM = ["by_cluster", "for e in all_eps", "cid = _stable_cluster_id", "cluster_scores", "for cid, items in", "vecs = [", "if not vecs",
+                "continue", "centroid =", "cs = _cosine", "chosen =", "pool", "for cid in sorted", "results = self._rank_by_cosine(pool"]
 _NOW_OK = "(not is_none(hints['now']) and iso_ok(some(hints['now'])))"
 _DAYS = "hints.get('recent_days', 30)"
 
@@ -183,6 +188,7 @@ R.contract(
     ],
     raises="none",
     loops=_OUT_LOOP, locals=_SEARCH_LOCALS,
+    unreachable_ok=["if tier == 'cluster_semantic':"],   # this variant fixes tier = exact_semantic; the other arms have their own
 )
 R.contract(
     INDEX + "InMemoryIndex._search_with_episodes", "C11", name="InMemoryIndex._search_with_episodes[archive]", callee=False,
@@ -197,6 +203,7 @@ R.contract(
     ],
     raises="none",
     loops=_OUT_LOOP, locals=_SEARCH_LOCALS,
+    unreachable_ok=_EXACT_ARM + _CLUSTER_ARM + ["results = []"],   # tier = archive
 )
 R.contract(
     INDEX + "InMemoryIndex._search_with_episodes", "C11", name="InMemoryIndex._search_with_episodes[unknown-tier]", callee=False,
@@ -206,4 +213,6 @@ R.contract(
     ensures=[("unknown-tier-yields-nothing", "len(result) == 0"), _COMMON[-1]],
     raises="none",
     loops=_OUT_LOOP, locals=_SEARCH_LOCALS,
+    # no known tier: all three arms are dead, and the output loop body never runs (results == [])
+    unreachable_ok=_EXACT_ARM + _CLUSTER_ARM + _ARCHIVE_ARM + ["out.append("],
 )
